@@ -36,6 +36,48 @@ func (c *c19Rec) Adjust(o, d time.Duration, f float64) {
 // tape-chosen points. Constants (2 s, weight 3, 1 ms, 500 ppm) are the
 // statement's.
 
+// c19Slew is the last Adjust the discipline made, and what the kernel's frequency correction
+// has to be as a consequence.
+type c19Slew struct {
+	valid        bool
+	at           time.Time // virtual instant of the call
+	off, dur     time.Duration
+	freq         float64
+	steppedSince bool
+}
+
+func (s *c19Slew) check(kernPPB int64) string {
+	if !s.valid {
+		return ""
+	}
+	d := s.dur / time.Second * time.Second
+	if d == 0 {
+		d = time.Second
+	}
+	el := time.Since(s.at)
+	want := s.freq
+	phase := "after the slew"
+	switch {
+	case s.steppedSince:
+		phase = "after a step"
+	case float64(el) < 0.98*float64(d):
+		want, phase = s.freq+s.off.Seconds()/d.Seconds(), "during the slew"
+	case float64(el) <= 1.02*float64(d):
+		return "" // the slew ends about now (the timer runs on the clock that is being slewed)
+	}
+	ppb := want * 1e9
+	if ppb > 500000 {
+		ppb = 500000 // the kernel's limit
+	}
+	if ppb < -500000 {
+		ppb = -500000
+	}
+	if diff := math.Abs(float64(kernPPB) - ppb); diff > 2+math.Abs(ppb)*1e-6 {
+		return fmt.Sprintf("%s of Adjust(%v, %v, %g) %v ago the kernel's frequency correction is %d ppb, it has to be %.1f ppb", phase, s.off, s.dur, s.freq, el, kernPPB, ppb)
+	}
+	return ""
+}
+
 type c19Call struct {
 	kind     string // "step" | "adjust"
 	off, dur time.Duration
@@ -57,15 +99,20 @@ func c19World(t *testing.T, r *simcore.Run) any {
 	// (driver/clocks) on a simulated kernel (clock_gettime / clock_adjtime / timerfd): epoch,
 	// clock readings and the goroutine that ends a slew are then the driver's own.
 	realDriver := tp.Bool(1, 3, "realdriver")
+	var slew c19Slew // the slew the discipline asked for last (real-driver runs)
 	var sys timebase.SystemClock = clk
 	var kern *simkern.KClock
 	if realDriver {
 		kern = simkern.New(r, nil, clk, tp.Range(0, 100000, "hwppb")-50000)
 		simkern.Current = kern
 		sys = &c19Rec{SystemClock: clocks.NewSystemClock(quietLog(), 10*time.Microsecond),
-			onStep: func(d time.Duration) { calls = append(calls, c19Call{kind: "step", off: d, update: upd}) },
+			onStep: func(d time.Duration) {
+				calls = append(calls, c19Call{kind: "step", off: d, update: upd})
+				slew.steppedSince = true
+			},
 			onAdjust: func(o, d time.Duration, f float64) {
 				calls = append(calls, c19Call{kind: "adjust", off: o, dur: d, freq: f, update: upd})
+				slew = c19Slew{valid: true, at: time.Now(), off: o, dur: d, freq: f}
 			}}
 		r.Probe("real-clock-driver")
 	}
@@ -113,6 +160,7 @@ func c19World(t *testing.T, r *simcore.Run) any {
 				by := time.Duration(tp.Range(0, int64(10*time.Second), "extby"))
 				if realDriver {
 					sys.(*c19Rec).SystemClock.Step(by) // another user of the same driver object
+					slew.steppedSince = true
 				} else {
 					clk.StepBy(by)
 				}
@@ -149,6 +197,15 @@ func c19World(t *testing.T, r *simcore.Run) any {
 			}
 			weight := []float64{0, 1, 3, 3.0000001, 4, 49, 50, 100, 149, 150, 1000, 1e6}[tp.Intn(12, "w")]
 
+			if realDriver {
+				// sane actuation, seen at the kernel: while a slew is in progress the frequency in force
+				// is the one asked for plus offset/duration; once its duration has passed, or the clock
+				// was stepped meanwhile, it is the frequency the discipline asked for - nothing else
+				if why := slew.check(kern.AdjPPB); why != "" {
+					r.Fail("C19", "driver/frequency-in-force", "update %d: %s", k, why)
+					return
+				}
+			}
 			now := sys.Now()
 			if ep := sys.Epoch(); !m.have || ep != m.epoch {
 				if m.have {
